@@ -121,7 +121,7 @@ def St.fireContext (s : St) (r e : Nat) : St :=
     match rc.currently with
     | some h =>
       if (s.ev h).cause.isSome then
-        (s.modEv e fun x => { x with cause := some h, effects := 1 }).modEv h
+        (s.modEv e fun x => { x with cause := some h, effects := 1, selfDone := false }).modEv h
           fun x => { x with effects := x.effects + 1 }
       else s
     | none => s
@@ -200,7 +200,7 @@ def St.eventDonePre (s : St) (r e : Nat) (err : Bool) : Bool × St :=
     let ev1 := s1.ev e
     let s2 := if !err && !ev1.val.errors && ev1.success
       then s1.fireChild r e sfxSuccess (ev1.successChans.getD ev1.chans) else s1
-    (true, s2)
+    (true, s2.modEv e fun x => { x with selfDone := true })
 
 /-! ### tasks -/
 
